@@ -11,20 +11,30 @@ Import ListNotations.
 
 (* ---- the generic store ------------------------------------------------------ *)
 (* reading what dict2hdf5group wrote returns the "expected reading" rd of the
-   python dict, for every None-free nested dict of strings, scalars and arrays *)
-Theorem C13_store_roundtrip : forall (T : Type) (v : pv T),
-  none_free v = true -> h52dict (dict2h5 v) = rd v.
+   python dict, for EVERY nested dict of strings, scalars, arrays and None items
+   (a None item is skipped with a warning, the items after it are written) *)
+Theorem C13_store_roundtrip : forall (T : Type) (v : pv T), h52dict (dict2h5 v) = rd v.
 Proof. exact @store_roundtrip. Qed.
 Print Assumptions C13_store_roundtrip.
+Theorem C13_none_skipped : forall (T : Type) (k : string) (l : list (string * pv T)),
+  dict2h5 (PD ((k, PN) :: l)) = dict2h5 (PD l).
+Proof. exact @none_skipped. Qed.
+Print Assumptions C13_none_skipped.
 
-(* FULL clause: every str value is read back unchanged.  Holds for ASCII ... *)
-Theorem C13_string_ascii : forall s : pystr, ascii_str s -> latin1 (str_stored s) = s.
+(* FULL clause: every str value is read back unchanged: every string of Unicode
+   scalar values without NUL characters (UTF-8 written into len(bytes)+1 bytes,
+   UTF-8 read).  [python cannot encode lone surrogates; numpy/h5py drop trailing
+   NULs of a fixed-width item] *)
+Theorem C13_string_roundtrip : forall s : pystr, ustr s -> decode_str (str_stored s) = s.
+Proof. exact str_roundtrip. Qed.
+Print Assumptions C13_string_roundtrip.
+Theorem C13_string_ascii : forall s : pystr, ascii_str s -> decode_str (str_stored s) = s.
 Proof. exact str_roundtrip_ascii. Qed.
 Print Assumptions C13_string_ascii.
-(* ... refuted otherwise (UTF-8 written into len+1 bytes, latin-1 read): "µm" *)
-Theorem C13_string_nonascii_refuted : exists s : pystr, latin1 (str_stored s) <> s.
-Proof. exact str_roundtrip_nonascii_refuted. Qed.
-Print Assumptions C13_string_nonascii_refuted.
+(* bytes that are not valid UTF-8 (files of other writers) are read as latin-1 *)
+Theorem C13_string_fallback : forall b : list Z, utf8_dec b = None -> decode_str b = latin1 b.
+Proof. exact decode_str_fallback. Qed.
+Print Assumptions C13_string_fallback.
 
 (* FULL clause: every array is read back unchanged.  Holds unless its first axis has length one ... *)
 Theorem C13_array_len_not_one : forall (T : Type) (a : arr T), (alen a <> 1)%nat -> unwrap a = RA a.
@@ -35,63 +45,51 @@ Theorem C13_array_len_one_refuted : forall (T : Type) (x : T), exists a : arr T,
 Proof. exact @unwrap_one_refuted. Qed.
 Print Assumptions C13_array_len_one_refuted.
 
-(* scan_unit=None: the writer's `break` drops the rest of the header (the phases) *)
-Theorem C13_none_drops_rest_refuted : forall (T : Type) (k k' : string) (v : pv T),
-  dict2h5 (PD [(k, PN); (k', v)]) = HG [].
-Proof. exact @none_drops_rest. Qed.
-Print Assumptions C13_none_drops_rest_refuted.
-
 (* phase ids written as str(i) and read with int(k) *)
 Theorem C13_phase_id_keys : forall z : Z, zint (zstr z) = Some z.
 Proof. exact zint_zstr. Qed.
 Print Assumptions C13_phase_id_keys.
 
 (* ---- phases ----------------------------------------------------------------- *)
-(* forall-fin: all 230 space groups except 3..9, and all 38 named point groups,
-   satisfy the decidable reload condition sym_ok ... *)
-Theorem C13_spacegroups_reload : forall n : Z, (1 <= n <= 230)%Z -> ~ (3 <= n <= 9)%Z ->
+(* forall-fin: all 230 space groups (the monoclinic 3..9 with point groups named
+   "2" / "m" included) and all 38 named point groups satisfy the decidable reload
+   condition sym_ok ... *)
+Theorem C13_spacegroups_reload : forall n : Z, (1 <= n <= 230)%Z ->
   sym_ok (Some n) (Some (sg2pg n)) = true.
 Proof. exact sym_ok_spacegroups. Qed.
 Print Assumptions C13_spacegroups_reload.
 Theorem C13_pointgroups_reload : forall g : string, In g pg_names -> sym_ok None (Some (s2p g)) = true.
 Proof. exact sym_ok_pointgroups. Qed.
 Print Assumptions C13_pointgroups_reload.
-(* ... under which Phase(...) rebuilds the same (space group, point group) *)
+(* ... under which Phase(...), called as dict2phase calls it (point group only
+   when there is no space group), rebuilds the same (space group, point group) *)
 Theorem C13_phase_symmetry : forall (T : Type) (ccanon : pystr -> pystr) (restruct : structure (T:=T) -> structure (T:=T))
   name sg pg st col, sym_ok sg pg = true ->
-  mk_phase ccanon restruct name sg pg st col = Some (mkPhase name sg pg (ccanon col) (restruct st)).
+  mk_phase ccanon restruct name sg (reader_pg sg pg) st col = Some (mkPhase name sg pg (ccanon col) (restruct st)).
 Proof. exact @mk_phase_ok. Qed.
 Print Assumptions C13_phase_symmetry.
-(* refuted for the monoclinic space groups: 3..5 store "2" (an alias of 2/m; the
-   space group is dropped), 6..9 store "m" (no group name; ValueError) *)
-Theorem C13_spacegroup_3_refuted : forall (T : Type) ccanon (restruct : structure (T:=T) -> structure (T:=T)) name st col,
-  mk_phase ccanon restruct name (Some 3%Z) (Some (sg2pg 3)) st col
-  = Some (mkPhase name None (Some (s2p "2/m")) (ccanon col) (restruct st)).
-Proof. exact @mk_phase_sg3_refuted. Qed.
-Print Assumptions C13_spacegroup_3_refuted.
-Theorem C13_spacegroup_6_refuted : forall (T : Type) ccanon (restruct : structure (T:=T) -> structure (T:=T)) name st col,
-  mk_phase ccanon restruct name (Some 6%Z) (Some (sg2pg 6)) st col = None.
-Proof. exact @mk_phase_sg6_refuted. Qed.
-Print Assumptions C13_spacegroup_6_refuted.
-Theorem C13_spacegroup_monoclinic_not_ok : forall n : Z, (3 <= n <= 9)%Z -> sym_ok (Some n) (Some (sg2pg n)) = false.
-Proof. exact sym_ok_monoclinic_false. Qed.
-Print Assumptions C13_spacegroup_monoclinic_not_ok.
+(* the repaired monoclinic cases, explicitly: space groups 3 (point group "2", an
+   alias of "2/m") and 6 (point group "m", not a name in _groups) *)
+Theorem C13_spacegroup_3 : forall (T : Type) ccanon (restruct : structure (T:=T) -> structure (T:=T)) name st col,
+  mk_phase ccanon restruct name (Some 3%Z) None st col
+  = Some (mkPhase name (Some 3%Z) (Some (s2p "2")) (ccanon col) (restruct st)).
+Proof. exact @mk_phase_sg3. Qed.
+Print Assumptions C13_spacegroup_3.
+Theorem C13_spacegroup_6 : forall (T : Type) ccanon (restruct : structure (T:=T) -> structure (T:=T)) name st col,
+  mk_phase ccanon restruct name (Some 6%Z) None st col
+  = Some (mkPhase name (Some 6%Z) (Some (s2p "m")) (ccanon col) (restruct st)).
+Proof. exact @mk_phase_sg6. Qed.
+Print Assumptions C13_spacegroup_6.
 
-(* FULL clause: atoms come back in their order.  Up to ten atoms ... *)
-Theorem C13_atoms_order_le10 : forall (T : Type) (ats : list (atom (T:=T))),
-  (List.length ats <= 10)%nat -> Forall wf_atom ats ->
-  all_some (map (fun kv : string * rv T => dict2atom (snd kv)) (sortk (atoms_dict ats))) = Some ats.
+(* FULL clause: atoms come back in their order, for every number of atoms: the
+   reader sorts the links "0", "1", "10", "2", ... by int(key) *)
+Theorem C13_atoms_order : forall (T : Type) (ats : list (atom (T:=T))),
+  Forall wf_atom ats -> read_atoms (sortk (atoms_dict ats)) = Some ats.
 Proof. exact @atoms_rt. Qed.
-Print Assumptions C13_atoms_order_le10.
-(* ... refuted from eleven on: link "10" is listed before "2" *)
-Theorem C13_atoms_order_refuted : forall (T : Type) (a : atom (T:=T)),
-  map fst (sortk (atoms_dict (repeat a 11)))
-  = ["0"; "1"; "10"; "2"; "3"; "4"; "5"; "6"; "7"; "8"; "9"]%string.
-Proof. exact @atoms_order_refuted. Qed.
-Print Assumptions C13_atoms_order_refuted.
+Print Assumptions C13_atoms_order.
 
-(* a well-formed phase (ASCII name, canonical colour, aligned structure, sym_ok,
-   at most ten well-formed atoms) is rebuilt exactly *)
+(* a well-formed phase (name and colour encodable, canonical colour, aligned
+   structure, sym_ok, well-formed atoms) is rebuilt exactly *)
 Theorem C13_phase_roundtrip : forall (T : Type) ccanon (restruct : structure (T:=T) -> structure (T:=T)) (p : phase),
   wf_phase ccanon restruct p -> dict2phase ccanon restruct (rd (phase2dict p)) = Some p.
 Proof. exact @phase_rt. Qed.
@@ -111,13 +109,14 @@ Print Assumptions C13_constructor_fixpoint.
 
 (* ---- the map ------------------------------------------------------------------ *)
 (* FULL clause: forall maps m, load (save m) = m up to rotation equality.
-   Proved for every well-formed m (record wf: not exactly one point, no length-one
-   rotation axis, at least one point in the data, property names distinct and not
-   reserved, ASCII scan unit, listed phases = phases in use, default not-indexed
-   phase, well-formed phases): saving succeeds, loading succeeds, and the loaded
-   map has the same rotation shape, phase ids, coordinates, mask, scan unit and
-   phases, the same properties (listed in name order), and rotations re-created
-   from the stored Euler angles with improper = false (see C13_rotation_* below). *)
+   Proved for every well-formed m (record wf: not exactly one point, at least one
+   point in the data, property names distinct and not reserved, encodable scan
+   unit or None, listed phases = phases in use, default not-indexed phase,
+   well-formed phases): saving succeeds, loading succeeds, and the loaded map has
+   the same rotation shape (length-one axes included), phase ids, coordinates,
+   mask, scan unit and phases, the same properties (listed in name order), and
+   rotations re-created from the stored Euler angles with the stored improper
+   flags (reload_rot; see C13_rotation_* below). *)
 Theorem C13_load_save_outside_findings : forall (T : Type) (O : Ops T) ccanon restruct fresh ver (m : cmap (T:=T)),
   wf O ccanon restruct m ->
   exists f props', save O ver m = Some f /\
@@ -139,39 +138,40 @@ Print Assumptions C13_second_cycle.
 
 (* ---- rotations (over the reals, generated kernels) ---------------------------- *)
 (* FULL clause: forall rotations r, the rotation re-created from the stored Euler
-   angles is r (same improper flag, quaternion = +-normalised quaternion).
-   Proved for proper rotations on the generic Euler branch outside the kernels'
-   1e-9 bands (C01 lemma eu2qu_qu2eu_generic); the exact gimbal branch Phi = 0 is
-   covered by correspondence + oracle only. *)
+   angles and improper flag is r (same improper flag, quaternion = +-normalised
+   quaternion).  Proved for proper AND improper rotations on the generic Euler
+   branch outside the kernels' 1e-9 bands (C01 lemma eu2qu_qu2eu_generic); the
+   exact gimbal branch Phi = 0 is covered by correspondence + oracle only. *)
 Theorem C13_rotation_roundtrip_partial : forall r : rotation (T:=R),
-  snd r = false -> euler_generic (fst r) -> rot_same r (reload_rot r).
+  euler_generic (fst r) -> rot_same r (reload_rot r).
 Proof. exact rot_roundtrip_generic. Qed.
 Print Assumptions C13_rotation_roundtrip_partial.
-Theorem C13_rotation_improper_refuted : exists r : rotation (T:=R), snd r = true /\ ~ rot_same r (reload_rot r).
-Proof. exact rot_improper_refuted. Qed.
-Print Assumptions C13_rotation_improper_refuted.
+Theorem C13_rotation_improper_kept : forall r : rotation (T:=R), snd (reload_rot r) = snd r.
+Proof. exact rot_improper_kept. Qed.
+Print Assumptions C13_rotation_improper_kept.
 Theorem C13_rotation_gimbal_pi_refuted :
   exists r : rotation (T:=R), snd r = false /\ qnorm2 ROps (fst r) = 1%R /\ ~ rot_same r (reload_rot r).
 Proof. exact rot_gimbal_pi_refuted. Qed.
 Print Assumptions C13_rotation_gimbal_pi_refuted.
 
-(* ---- non-vacuity: a concrete well-formed two-point, two-phase map with a
-   not-indexed point, a property and atoms (abstract functions = identity) ------ *)
+(* ---- non-vacuity: a concrete well-formed three-point map of shape (3, 1) with
+   an improper rotation, a not-indexed point, a masked point, a property, a
+   non-ASCII scan unit, a monoclinic phase and an atom (abstract functions =
+   identity) ------ *)
 Definition ex_arr (l : list R) : arr R := mkArr "float64" [List.length l] (DF l).
 Definition ex_phase : phase (T:=R) :=
-  mkPhase (s2p "al") (Some 225%Z) (Some (sg2pg 225)) (s2p "tab:blue")
+  mkPhase [945; 45; 70; 101]%Z (Some 6%Z) (Some (sg2pg 6)) (s2p "tab:blue")
     (mkLat (ex_arr [4; 4; 4; 90; 90; 90]%R) (mkArr "float64" [3; 3]%nat (DF [1; 0; 0; 0; 1; 0; 0; 0; 1]%R)),
      [mkAtom (s2p "Al") [] 1%R (ex_arr [0; 0; 0]%R) (mkArr "float64" [3; 3]%nat (DF [0; 0; 0; 0; 0; 0; 0; 0; 0]%R))]).
 Definition ex_map : cmap (T:=R) :=
-  mkMap [3%nat] [((1, 0, 0, 0)%R, false); ((1, 0, 0, 0)%R, false); ((1, 0, 0, 0)%R, false)] [0; -1; 0]%Z
+  mkMap [3%nat; 1%nat] [((1, 0, 0, 0)%R, false); ((1, 0, 0, 0)%R, true); ((1, 0, 0, 0)%R, false)] [0; -1; 0]%Z
     (Some (ex_arr [0; 1; 2]%R)) None [true; true; false]
-    [("iq"%string, ex_arr [1; 2; 3]%R)] (Some (s2p "um"))
+    [("iq"%string, ex_arr [1; 2; 3]%R)] (Some [181; 109]%Z)
     [((-1)%Z, ni_phase ROps (fun c => c) (fun s => s)); (0%Z, ex_phase)].
 Example C13_wf_nonvacuous : wf ROps (fun c => c) (fun s => s) ex_map.
 Proof.
   constructor; cbn.
   - discriminate.
-  - reflexivity.
   - discriminate.
   - intros [H _]. discriminate.
   - intros a [= <-]. cbn. discriminate.
@@ -179,19 +179,19 @@ Proof.
   - repeat constructor. intros [].
   - intros k [<-|[]]. reflexivity.
   - repeat constructor. cbn. discriminate.
-  - exists (s2p "um"). split; [reflexivity|]. apply asciib_sound. reflexivity.
+  - intros u [= <-]. apply ustrb_sound. reflexivity.
   - reflexivity.
   - discriminate.
   - intros p [H|[H|[]]]; [now inversion H|discriminate].
-  - assert (A : forall p : phase (T:=R), asciib (ph_name p) = true -> asciib (ph_color p) = true ->
+  - assert (A : forall p : phase (T:=R), ustrb (ph_name p) = true -> ustrb (ph_color p) = true ->
                 sym_ok (ph_sg p) (ph_pg p) = true ->
                 (alen (l_abcABG (fst (ph_st p))) <> 1)%nat -> (alen (l_baserot (fst (ph_st p))) <> 1)%nat ->
-                (List.length (snd (ph_st p)) <= 10)%nat -> Forall wf_atom (snd (ph_st p)) ->
+                Forall wf_atom (snd (ph_st p)) ->
                 wf_phase (fun c => c) (fun s => s) p).
-    { intros p H1 H2 H3 H4 H5 H6 H7. repeat split; auto using asciib_sound. }
+    { intros p H1 H2 H3 H4 H5 H7. repeat split; auto using ustrb_sound. }
     assert (B : wf_atom (T:=R) (mkAtom (s2p "Al") [] 1%R (ex_arr [0; 0; 0]%R)
                                 (mkArr "float64" [3; 3]%nat (DF [0; 0; 0; 0; 0; 0; 0; 0; 0]%R)))).
-    { split; [apply asciib_sound; reflexivity|]. split; [apply asciib_sound; reflexivity|].
+    { split; [apply ustrb_sound; reflexivity|]. split; [apply ustrb_sound; reflexivity|].
       split; cbn; discriminate. }
     constructor; [|constructor; [|constructor]]; apply A; try reflexivity; cbn; try discriminate; try lia.
     + constructor.
